@@ -577,7 +577,7 @@ func TestC08(t *testing.T) {
 	rec.R.Exhaustive = complete && cfg.Thorough()
 	rec.Flush()
 	// seeded larger hierarchies
-	total := 200 / cfg.NShards
+	total := 2000 / cfg.NShards
 	if cfg.Thorough() {
 		total = 20000 / cfg.NShards
 	}
